@@ -454,6 +454,157 @@ def regenerate_tables():
     return errors, changed
 
 
+# ======================================================================================= T-srv
+def generate_serverloop():
+    """RemoteServer.run: every statement of the accept loop that talks to the client, with the try blocks that
+    enclose it, the exception classes those catch and how each handler ends."""
+    sys.path.insert(0, str(REPO))
+    out = ['import PwVerif.Model.Server', '/-! GENERATED by harness/translate.py (T-srv) from /repo - do not edit. -/', 'namespace PwVerif.Gen', 'open PwVerif.Server', '']
+    errors = []
+    try:
+        c = getattr(importlib.import_module('pyworkers.remote_server'), 'RemoteServer')
+        t = Translator(c)
+        node, path = t.func_ast('run')
+        loop = next(n for n in ast.walk(node) if isinstance(n, ast.While))
+        steps = []
+
+        def ends(handler):
+            last = handler.body[-1]
+            if isinstance(last, ast.Continue):
+                return 'continue'
+            if isinstance(last, ast.Raise):
+                return 'raises'
+            if isinstance(last, ast.Break):
+                return 'breaks'
+            return 'fallsThrough'
+
+        def visit(stmts, enclosing, tail_of_loop):
+            for idx, s in enumerate(stmts):
+                is_last = tail_of_loop and idx == len(stmts) - 1
+                if isinstance(s, ast.Try):
+                    hs = []
+                    for h in s.handlers:
+                        cls = ast.unparse(h.type) if h.type is not None else 'BaseException'
+                        e = ends(h)
+                        if e == 'fallsThrough' and is_last:
+                            e = 'continue'        # nothing follows in the loop body: falling through ends the iteration
+                        hs.append((cls, e))
+                    visit(s.body, enclosing + [hs], False)
+                    for h in s.handlers:
+                        visit(h.body, enclosing, False)
+                    visit(s.finalbody, enclosing, False)
+                elif isinstance(s, (ast.If, ast.With)):
+                    visit(s.body, enclosing, is_last)
+                    if isinstance(s, ast.If):
+                        visit(s.orelse, enclosing, is_last)
+                else:
+                    txt = ast.unparse(s)
+                    kind = None
+                    if 'recv_msg(' in txt:
+                        kind = 'recv'
+                    elif 'send_msg(' in txt:
+                        kind = 'send'
+                    elif 'ctx.call(' in txt:
+                        kind = 'ctxCall'
+                    elif '.accept()' in txt:
+                        kind = 'accept'
+                    if kind:
+                        # the innermost handler that catches ConnectionClosedError decides
+                        how = 'uncaught'
+                        for hs in reversed(enclosing):
+                            m = [e for (cls, e) in hs if cls in ('ConnectionClosedError', 'Exception', 'BaseException')]
+                            if m:
+                                how = m[0]
+                                break
+                        steps.append((kind, s.lineno, how))
+        visit(loop.body, [], True)
+        out.append(f'/-- `RemoteServer.run` ({path.name}:{node.lineno}): client-facing steps of one accept-loop iteration -/')
+        out.append('def serverLoop : List Step :=\n  [' + ', '.join(f'⟨.{k}, {ln}, .{how}⟩' for k, ln, how in steps) + ']\n')
+        # skipped requests (None header / unknown context) must close the client socket before `continue`
+        src = ast.unparse(loop)
+        closes = len(re.findall(r"cli\.close\(\)\n\s*continue", src))
+        out.append(f'/-- number of `cli.close(); continue` exits (requests the server skips) -/\ndef skippedRequestsClosed : Nat := {closes}\n')
+    except Exception as e:
+        errors.append(f'serverLoop: {type(e).__name__}: {e}')
+        out.append('def serverLoop : List Step := [⟨.recv, 0, .uncaught⟩]\ndef skippedRequestsClosed : Nat := 0\n')
+    out.append('end PwVerif.Gen')
+    return '\n'.join(out) + '\n', errors
+
+
+def regenerate_serverloop():
+    text, errors = generate_serverloop()
+    changed = write_if_changed(LEAN / 'PwVerif' / 'Gen' / 'ServerLoop.lean', text)
+    return errors, changed
+
+
+# ======================================================================================= T-front
+def generate_frontend():
+    """RemoteWorker._start / _run_frontend: the client side of the handshake - which steps can fail, which
+    exception classes the enclosing handler catches, whether the failure path wakes the constructor up."""
+    sys.path.insert(0, str(REPO))
+    out = ['import PwVerif.Model.Handshake', '/-! GENERATED by harness/translate.py (T-front) from /repo - do not edit. -/', 'namespace PwVerif.Gen', 'open PwVerif.Handshake', '']
+    errors = []
+    try:
+        c = getattr(importlib.import_module('pyworkers.remote'), 'RemoteWorker')
+        t = Translator(c)
+        fr, path = t.func_ast('_run_frontend')
+        st, _ = t.func_ast('_start')
+        steps = []
+        catches = 'nothing'
+        sets_error = sets_event = False
+        success_set_after_try = False
+
+        def step_kind(txt):
+            if 'send_msg(' in txt:
+                return 'send'
+            if 'recv_msg(' in txt:
+                return 'recv'
+            if '.connect(' in txt:
+                return 'connect'
+            return None
+        covered = set()
+        for n in fr.body:
+            if isinstance(n, ast.Try):
+                for s in ast.walk(ast.Module(body=n.body, type_ignores=[])):
+                    if isinstance(s, (ast.Expr, ast.Assign)):
+                        k = step_kind(ast.unparse(s))
+                        if k:
+                            steps.append((k, 'true'))
+                            covered.add(s.lineno)
+                for h in n.handlers:
+                    cls = ast.unparse(h.type) if h.type is not None else 'BaseException'
+                    catches = {'Exception': 'exception', 'BaseException': 'baseException', 'ConnectionClosedError': 'closedOnly'}.get(cls, 'other')
+                    body = ast.unparse(ast.Module(body=h.body, type_ignores=[]))
+                    sets_error = 'self._startup_error = e' in body
+                    sets_event = 'self._startup_sync.set()' in body
+        # handshake steps outside of any try
+        seen_set = False
+        for s in ast.walk(fr):
+            if isinstance(s, (ast.Expr, ast.Assign)) and s.lineno not in covered:
+                txt = ast.unparse(s)
+                if 'self._startup_sync.set()' in txt and not seen_set:
+                    seen_set = True
+                k = step_kind(txt)
+                if k and '_fetch_results' not in txt and not seen_set:
+                    steps.append((k, 'false'))
+        src_start = ast.unparse(st)
+        waits = 'self._startup_sync.wait()' in src_start
+        reraises = bool(re.search(r"if self\._startup_error is not None:.*raise self\._startup_error", src_start, re.S))
+        out.append(f'/-- `RemoteWorker._run_frontend` ({path.name}:{fr.lineno}) / `_start` -/')
+        out.append('def frontend : Frontend :=\n  { steps := [' + ', '.join(f'⟨.{k}, {c}⟩' for k, c in steps) + f'],\n    catches := .{catches}, handlerRecordsError := {str(sets_error).lower()}, handlerSetsEvent := {str(sets_event).lower()},\n    startWaitsForEvent := {str(waits).lower()}, startReraises := {str(reraises).lower()} }}\n')
+    except Exception as e:
+        errors.append(f'frontend: {type(e).__name__}: {e}')
+        out.append('def frontend : Frontend := { steps := [⟨.recv, false⟩], catches := .nothing, handlerRecordsError := false, handlerSetsEvent := false, startWaitsForEvent := true, startReraises := false }\n')
+    out.append('end PwVerif.Gen')
+    return '\n'.join(out) + '\n', errors
+
+
+def regenerate_frontend():
+    text, errors = generate_frontend()
+    changed = write_if_changed(LEAN / 'PwVerif' / 'Gen' / 'Frontend.lean', text)
+    return errors, changed
+
+
 if __name__ == '__main__':
     errs, meta, changed = regenerate()
     print('RunLoops.lean', 'rewritten' if changed else 'unchanged')
@@ -461,9 +612,17 @@ if __name__ == '__main__':
     print('Blocking.lean', 'rewritten' if changed2 else 'unchanged')
     errs3, changed3 = regenerate_tables()
     print('Tables.lean', 'rewritten' if changed3 else 'unchanged')
-    errs2 = errs2 + errs3
+    errs4, changed4 = regenerate_serverloop()
+    print('ServerLoop.lean', 'rewritten' if changed4 else 'unchanged')
+    errs5, changed5 = regenerate_frontend()
+    print('Frontend.lean', 'rewritten' if changed5 else 'unchanged')
+    errs2 = errs2 + errs3 + errs4 + errs5
     for e in errs + errs2:
         print('UNTRANSLATABLE', e)
     sys.exit(1 if errs or errs2 else 0)
+
+
+
+
 
 
